@@ -19,7 +19,7 @@ def shim_path():
     return so
 
 
-def child(spec, timeout=3000):
+def child(spec, timeout=7200):
     env = dict(os.environ)
     env["LD_PRELOAD"] = shim_path()
     env["PYTHONPATH"] = os.environ.get("PYTHONPATH") or VERIF
@@ -35,11 +35,15 @@ def run(tier, seed):
 
     from ..common import NPROC
 
-    spec = {"depth": 4 if tier == "quick" else 5, "backends": ["llvm"] if tier == "quick" else ["llvm", "cffi"]}
+    # quick: depth 4 on the LLVM back end; thorough: depth 5 on the LLVM back end and depth 4 with both back ends
+    passes = [{"depth": 4, "backends": ["llvm"]}] if tier == "quick" else \
+        [{"depth": 5, "backends": ["llvm"]}, {"depth": 4, "backends": ["llvm", "cffi"]}]
+    spec = passes[0]
     parts = NPROC
-    specs = [{**spec, "part": (k + seed) % parts, "parts": parts} for k in range(parts)]
+    specs = [{**sp, "part": (k + seed) % parts, "parts": parts} for sp in passes for k in range(parts)]
     with ThreadPoolExecutor(parts) as ex:
         procs = list(ex.map(child, specs))
+    spec = {"depth": max(p["depth"] for p in passes), "backends": sorted({b for p in passes for b in p["backends"]})}
     res = {"states": 0, "transitions": 0, "nontrivial": 0, "sample": None}
     died = False
     for sp, p in zip(specs, procs, strict=True):
